@@ -26,12 +26,30 @@ def hcase_term(cfg, ops, results, dump):
     return '(mkH %s %s %s %s)' % (srv.c_cfg(cfg), coqio.clist(ops_t), coqio.clist(obs_t), srv.c_dump(dump))
 
 
+def xhcase_term(cfg, ops, results, dump):
+    ops = expand(ops)
+    ops_t = [srv.c_xop(o, tbl) for o, (effs, tbl) in zip(ops, results)]
+    obs_t = [coqio.clist([srv.c_eff(e) for e in effs]) for effs, _ in results]
+    return '(mkXH %s %s %s %s)' % (srv.c_cfg(cfg), coqio.clist(ops_t), coqio.clist(obs_t), srv.c_dump(dump))
+
+
 def effect_signature(results):
     """Coarse shape of a run used to count distinct cases."""
     sig = []
     for effs, _ in results:
         sig.append(tuple(sorted(set((e[0], e[1]) if e[0] in ('Out', 'Call', 'CbCall') else (e[0],) for e in effs))))
     return tuple(sig)
+
+
+XKIND = {'c05': ('xhcase', 'From VT Require Import Check.SrvCheck Check.C05XCheck.', 'c05x_eval')}
+
+
+def case_kind(name):
+    """(Coq case type, imports, eval function, term printer) for a property's histories."""
+    if name in XKIND:
+        t, imp, fn = XKIND[name]
+        return t, imp, fn, xhcase_term
+    return 'hcase', IMPORTS_FMT % name.upper(), name + '_eval', hcase_term
 
 
 def run_histories(chk, name, histories, modes=('sync', 'async'), nontrivial=None, shard=60):
@@ -43,7 +61,7 @@ def run_histories(chk, name, histories, modes=('sync', 'async'), nontrivial=None
             coro = (i % 2 == 0)
             try:
                 results, dump = srv.run_history(cfg, ops, mode, coro)
-                term = hcase_term(cfg, ops, results, dump)
+                term = case_kind(name)[3](cfg, ops, results, dump)
             except Exception as e:
                 chk.broken_obligation('driver error on history %d (%s): %r' % (i, mode, e))
                 continue
@@ -56,7 +74,8 @@ def run_histories(chk, name, histories, modes=('sync', 'async'), nontrivial=None
             for o in ops:
                 chk.dist('op ' + o[0])
             ops = expand(ops)
-    codes, errors = coqio.eval_cases(name, IMPORTS_FMT % name.upper(), '', 'hcase', cases, name + '_eval', shard=shard)
+    ctype, imports, fn, _ = case_kind(name)
+    codes, errors = coqio.eval_cases(name, imports, '', ctype, cases, fn, shard=shard)
     chk.traces_validated += len(cases)
     for e in errors:
         chk.broken_obligation('case evaluation failed: ' + e)
@@ -81,14 +100,14 @@ def shrink_history(name, cfg, ops, mode, want_prop, budget=12):
         for cand in cands:
             try:
                 results, dump = srv.run_history(cfg, cand, mode)
-                terms.append(hcase_term(cfg, cand, results, dump))
+                terms.append(case_kind(name)[3](cfg, cand, results, dump))
                 ok_cands.append(cand)
             except Exception:
                 pass
         if not terms:
             break
-        codes, errors = coqio.eval_cases(name + '_shr', IMPORTS_FMT % name.upper(), '', 'hcase', terms,
-                                         name + '_eval', shard=len(terms))
+        ctype, imports, fn, _ = case_kind(name)
+        codes, errors = coqio.eval_cases(name + '_shr', imports, '', ctype, terms, fn, shard=len(terms))
         if errors:
             break
         hit = None
@@ -109,8 +128,9 @@ def shrink_history(name, cfg, ops, mode, want_prop, budget=12):
 
 def eval_one(name, cfg, ops, mode, coro=False):
     results, dump = srv.run_history(cfg, ops, mode, coro)
-    term = hcase_term(cfg, ops, results, dump)
-    codes, errors = coqio.eval_cases(name + '_shr', IMPORTS_FMT % name.upper(), '', 'hcase', [term], name + '_eval')
+    ctype, imports, fn, printer = case_kind(name)
+    term = printer(cfg, ops, results, dump)
+    codes, errors = coqio.eval_cases(name + '_shr', imports, '', ctype, [term], fn)
     if errors:
         raise RuntimeError(errors[0])
     return codes.get(0, 0), term
